@@ -27,6 +27,8 @@ class Build:
         if p["ints"]:
             ops.append({"op": "observe", "obs": 2, "var": p["ints"][0]})
         ops.append({"op": "bind", "name": "zz", "safe": True})
+        for e in p.get("externals", []):
+            ops.append({"op": "bind", "name": e["name"], "safe": True, "spec": e["spec"]})
         if self.named_flow:
             ops.append({"op": "switch_flow", "name": "side", "cls": "valid"})
         return ops
@@ -50,6 +52,11 @@ class Build:
             {"op": "remove_observer", "obs": 99, "var": iv[0] if iv else "nosuch_var", "cls": "bad", "lenient": True},
             {"op": "remove_observer", "obs": 99, "cls": "bad", "lenient": True},
             {"op": "bind", "name": "zz", "safe": False, "cls": "bad"},
+        ] + [
+            # a refused re-binding with a different handler and safety flag
+            {"op": "bind", "name": e["name"], "safe": False, "spec": {"impl": "const", "value": 999}, "cls": "bad"}
+            for e in ex.prog.get("externals", [])
+        ] + [
             {"op": "unbind", "name": "never_bound", "cls": "bad"},
             {"op": "visit_count", "path": "nosuch_knot", "cls": "bad", "lenient": True},
             {"op": "tags_at", "path": "nosuch_knot", "cls": "bad", "lenient": True},
@@ -114,7 +121,7 @@ class Build:
 
 def run(tier, seed):
     n = 36 if tier == "quick" else 600
-    progs = common.gen_programs(n, seed, vars=3)
+    progs = common.gen_programs(n - n // 3, seed, vars=3) + common.gen_programs(n // 3, seed + 11, vars=3, externals=2.0)
     nviol = runner.run_relational(
         "C09", progs, Build(tier, seed), tier, seed, "model_checking",
         rule="generated programs x explored choice paths; invalid calls of 20 kinds injected at every position "
